@@ -48,6 +48,14 @@ class Mutant:
                     if n == 0:
                         raise MutantNotApplicable('pattern %r not found' % op[1])
                     src = new
+                elif op[0] == 'delete_at':
+                    lines = src.split('\n')
+                    i, text = op[1], op[2]
+                    if i >= len(lines) or lines[i].strip() != text:
+                        raise MutantNotApplicable('line %d is not %r' % (i, text))
+                    l = lines[i]
+                    lines[i] = l[:len(l) - len(l.lstrip())] + 'pass'
+                    src = '\n'.join(lines)
                 elif op[0] == 'delete':
                     lines = src.split('\n')
                     for i, l in enumerate(lines):
@@ -78,8 +86,13 @@ def _run_one(args) -> Dict[str, Any]:
         return res
     try:
         ctx = Ctx(pid, mo, 'quick', 0)
-        mod.check(ctx)
-        ctx.check_floors()
+        try:
+            mod.check(ctx)
+            ctx.check_floors()
+        except AnalysisError as e:
+            if not [k for k in ctx.keys() if k not in baseline]:
+                raise
+            res['analysis_incomplete'] = str(e)
         keys = [k for k in ctx.keys() if k not in baseline]
         res['new_keys'] = keys
         if mutant.benign:
@@ -143,3 +156,64 @@ def run_synthetic(mod, pid: str) -> List[Dict[str, Any]]:
 
 def synthetic_overlay(files: Dict[str, str]) -> Overlay:
     return Overlay(files, root='<synthetic>', label='synthetic')
+
+
+# ---------------------------------------------------------------------------------------------
+# systematic sensitivity sweep (thorough tier): auto-generated single-statement deletions
+# ---------------------------------------------------------------------------------------------
+def sweep_lines(overlay: Overlay, path: str, qualname: str, predicate, tag: str) -> List[Mutant]:
+    """One mutant per line of the canonical source of `qualname` for which predicate(stripped_line) holds."""
+    import ast as _ast
+    from .overlay import find_def, strip_docstring
+    tree = _ast.parse(overlay.src(path))
+    node = find_def(tree, qualname)
+    if node is None:
+        return []
+    strip_docstring(node)
+    out = []
+    for i, line in enumerate(_ast.unparse(node).split('\n')):
+        t = line.strip()
+        if i > 0 and predicate(t):
+            out.append(Mutant('sweep:%s:%s:%d:%s' % (tag, qualname, i, t[:40]), path, qualname, [('delete_at', i, t)], expect=''))
+    return out
+
+
+def run_sweep(mod, pid: str, overlay: Overlay, jobs: int = 0) -> Dict[str, Any]:
+    gen = getattr(mod, 'sweep', None)
+    if gen is None:
+        return {}
+    mutants: List[Mutant] = gen(overlay)
+    if not mutants:
+        return {'generated': 0}
+    base = Ctx(pid, overlay, 'quick', 0)
+    mod.check(base)
+    baseline = set(base.keys())
+    jobs = jobs or min(16, os.cpu_count() or 1, len(mutants))
+    args = [(mod.__name__, pid, overlay.files, overlay.root, m, baseline) for m in mutants]
+    with cf.ProcessPoolExecutor(max_workers=jobs) as ex:
+        results = list(ex.map(_run_one, args, chunksize=max(1, len(args) // (jobs * 4))))
+    det = [r for r in results if r['status'] == 'ok' and r.get('new_keys')]
+    und = [r for r in results if r['status'] != 'not-applicable' and not r.get('new_keys') and not r.get('analysis_error')]
+    err = [r for r in results if r.get('analysis_error')]
+    out = {
+        'rule': 'every statement of the anchored functions that the property module classifies as protocol-relevant '
+                '(invalidations, refreshes, guards, bookkeeping stores) is deleted in turn; "detected" = the check reports a new '
+                'violation or refuses with ANALYSIS-ERROR; "undetected" = the deletion is outside the decided clauses or redundant',
+        'generated': len(results),
+        'detected': len(det),
+        'refused_as_analysis_error': len(err),
+        'undetected': [r['mutant'] for r in und],
+        'detected_samples': [{'mutant': r['mutant'], 'keys': r['new_keys'][:2]} for r in det[:8]],
+    }
+    if results and not det and not err:
+        raise AnalysisError('sensitivity sweep of %s: none of %d generated deletions was noticed' % (pid, len(results)))
+    return out
+
+
+def simple_statement(t: str) -> bool:
+    """A line of canonical source that is a simple statement (deleting it keeps the function compilable)."""
+    import re
+    if not t or t == 'pass' or t.startswith(('if ', 'elif ', 'else:', 'while ', 'for ', 'try:', 'except', 'finally:', 'with ',
+                                             'def ', 'class ', 'return', '@', '"""', "'''", 'global ', 'nonlocal ', 'assert ')):
+        return False
+    return not t.endswith(':')
